@@ -337,6 +337,9 @@ func (c *c02Case) Exec() {
 			}
 			testNested(j, evWhat(e, cp), img2)
 		}
+		if replayExplainsFinal(img2, cp) != "" {
+			ob.Nested = nil // the traced recovery was not understood (tracer or parser trouble): nothing follows from it
+		}
 	}
 	test(-1, "start")
 	for i, e := range events {
@@ -359,6 +362,13 @@ func (c *c02Case) Exec() {
 			return
 		}
 		test(i, evWhat(e, root))
+	}
+	// the replayed events must reproduce the directory the session really left behind; if they do not, the trace was
+	// not understood (tracer or parser trouble) and nothing about the library follows from this case
+	if d := replayExplainsFinal(img, root); d != "" {
+		c.Skipped = "replaying the traced events does not reproduce the final directory: trace not understood (" + d + ")"
+		c.Images = nil
+		return
 	}
 	if c.Nest > 0 {
 		prio := func(f string) int {
